@@ -65,3 +65,15 @@ claim("C20",
   "Decides for every schedule at once that no mutable package-level state is reachable from NGAP/APER/NAS encode+decode, NASEncode/NASDecode, key derivation and NASEncrypt/NASMacCalculate other than the recorded SNOW 3G generator state (known finding F18: NEA1/NIA1 are not safe concurrently). For code that starts no goroutine and holds no lock this is exactly what makes concurrent use for different UEs race-free and schedule-independent; a new cache, counter or scratch buffer at package level - synchronised or not - is reported with its writers.",
   "Level 'other'. Trusted: logrus handles are internally locked, reflect.Type is immutable, dependencies are race-free. Known finding F18 (snow3g.lfsr/fsm) is listed in known_findings.json with its demonstration.",
   "DESIGN.md §5 C20")
+
+claim("C08",
+  "AST/type model of the 45 generated Encode<X>/Decode<X> pairs (token sequences of IEI/Len/Value moves per IE), sibling cross-checking: encode vs decode of the same message, dispatch tables of nas.go, deviant detection across the 45 decode loops",
+  "Decides for all 45 message types and all 159 (message, optional IE) pairs at once the structural preconditions of losslessness: both directions move the same fields in the same order with the same formats, every optional IE has exactly one writer block and one reader case under its own, pairwise distinct, correctly ranged IEI constant, length-prefixed arrays are sliced by their length on both sides, buffers are sized before being read, every message type is dispatched to its own codec in both directions and unknown types/EPDs are errors, and all decoders share one loop preamble (a decoder that stops one octet early or normalises half-octet IEIs differently is a deviant).",
+  "Level 'other'. Not decided: value equality of round trips (e.g. a Len field that disagrees with its buffer, capacity of fixed arrays). A hand-written I/O statement that does not follow the generated idiom is reported as a deviation from the 44 sibling codecs.",
+  "DESIGN.md §5 C08")
+
+claim("C09",
+  "comparison of the extracted code-side table (mandatory order/format/size, optional IEI/format/length width per message) with the TS 24.501 clause 8.2/8.3 table compiled into the checker (363 rows) and of the message-type/EPD/header-type constants with clause 9; AST rule over the emulator's message constructors (own message type, EPD, field, IEI constants, length-of-stored-buffer)",
+  "Decides that the wire tables the codec implements are the standard's for all 45 messages and all field values at once - the oracle is the specification table, not the library's own constants, so a wrong IEI, swapped mandatory field or one- instead of two-octet length is a violated row - and that the constructors the emulator uses put the right message type, EPD and IEI constants into the messages they build. Two genuine deviations of the pinned library are listed as known findings (F13 Last visited registered TAI TV8 vs TV7, F14 Requested QoS rules TLV vs TLV-E).",
+  "Level 'other'. The standard's table was transcribed by hand (no specification text offline) and vetted row by row; MappedEPSBearerContexts in the modification messages follows the library's release (IEI 0x7F). Not decided: semantic contents of IE values.",
+  "DESIGN.md §5 C09")
